@@ -38,19 +38,20 @@ if common.REPO != '/repo':
 
 warnings.filterwarnings('ignore')
 
-PROP_MAIN = ['Lcapy/Props/C16.lean', 'Lcapy/Props/C16Pure.lean', 'Lcapy/Props/C16Sym.lean', 'Lcapy/Props/C16Tables.lean',
+PROP_MAIN = ['Lcapy/Props/C16.lean', 'Lcapy/Props/C16Pure.lean', 'Lcapy/Props/C16Sym.lean', 'Lcapy/Props/C16Env.lean', 'Lcapy/Props/C16Alias.lean',
+             'Lcapy/Props/C16Tables.lean',
              'Lcapy/Props/C16Full.lean', 'Lcapy/Props/C16Order.lean']
 # table checks that build iff the code is free of a recorded open finding: the exception branch of `add`
 PROP_CODE = ['Lcapy/Props/C16Atomic.lean', 'Lcapy/Props/C16SymCode.lean']
 HELPERS = ['Lcapy/Model/Cache.lean', 'Lcapy/Model/CacheAux.lean', 'Lcapy/Spec/Cache.lean',
            'Lcapy/Proofs/CacheTab.lean', 'Lcapy/Proofs/CacheElts.lean', 'Lcapy/Proofs/CacheInv.lean',
            'Lcapy/Proofs/CacheIso.lean', 'Lcapy/Proofs/CachePure.lean', 'Lcapy/Proofs/CacheAux.lean', 'Lcapy/Driver/C16.lean',
-           'Lcapy/Model/SymReg.lean', 'Lcapy/Proofs/SymReg.lean',
+           'Lcapy/Model/SymReg.lean', 'Lcapy/Proofs/SymReg.lean', 'Lcapy/Model/EnvMemo.lean', 'Lcapy/Model/Alias.lean',
            'Lcapy/Generated/Caches.lean']
 
 LIST_QUERIES = ['capacitors', 'inductors', 'voltage_sources', 'current_sources', 'reactances',
                 'independent_sources', 'node_list', 'branch_list', 'kinds', 'dependent_sources', 'twoports',
-                'unconnected_nodes', 'equipotential_nodes', 'loops']
+                'unconnected_nodes', 'equipotential_nodes', 'loops', 'describe']
 BOOL_QUERIES = ['has_dc', 'has_ac', 'is_dc', 'is_ac', 'is_causal', 'is_IVP', 'is_connected']
 CHEAP_QUERIES = LIST_QUERIES + BOOL_QUERIES
 # graph-based queries with arguments: (query, kind of argument)
@@ -58,12 +59,16 @@ GRAPH_QUERIES = [('in_series', 'cpt?'), ('in_parallel', 'cpt?'), ('across_nodes'
                  ('ladder', 'node2')]
 SOLVE_QUERIES = ['get_Vd', 'get_I']
 HEAVY_QUERIES = ['sim', 'transfer', 'state_space', 'thevenin']
-DERIVES = ['copy', 'kill', 'select', 'simplify', 'remove_dangling', 'subs']
+DERIVES = ['copy', 'kill', 'select', 'simplify', 'remove_dangling', 'subs', 'renumber']
+# a transformation with an optional argument and the same call with the documented default passed explicitly
+EXPLICIT_DEFAULT = {'renumber': lambda c: c.renumber({})}
 NODES = ['0', '1', '2', '3', '4', '5']
-SOLVE_TIMEOUT = 25.0
+SOLVE_TIMEOUT = 15.0
 GRAPH_ITEMS = ('is_connected', 'in_series', 'in_parallel', 'across_nodes', 'unreachable_nodes', 'ladder', 'loops', 'node_list')
-BATTERY_ITEM_TIMEOUT = 2.0
+BATTERY_ITEM_TIMEOUT = 0.6
 LOOPS_MAX_ELEMENTS = 7
+GRAPH_TIMEOUT = 1.5
+GRAPH_TIMED = ('ladder', 'loops', 'in_series', 'in_parallel', 'across_nodes', 'unreachable_nodes')
 # the name the model knows a harness query by (`loops` goes through the cached circuit graph)
 MODEL_QUERY = {'loops': 'cg'}
 # process-wide settings toggled (and toggled back) inside histories: name -> alternative value
@@ -191,15 +196,20 @@ class Real:
             raise Timeout()
         oldh = signal.signal(signal.SIGALRM, on_alarm)
         try:
+            timed_out = set()
             for rnd in ('1', '2'):
                 for nm, f in items:
                     if rnd == '2' and nm.split('(')[0] not in GRAPH_ITEMS:
                         continue        # the second round repeats the graph-based (cached-object) queries only
+                    if nm in timed_out:
+                        out.append(('%s#%s=timeout' % (nm, rnd)).replace(' ', ''))
+                        continue
                     signal.setitimer(signal.ITIMER_REAL, BATTERY_ITEM_TIMEOUT, 0.25)
                     try:
                         v = f()
                     except Timeout:
                         v = 'timeout'
+                        timed_out.add(nm)
                     except Exception as e:      # noqa
                         v = 'error:' + type(e).__name__
                     finally:
@@ -223,12 +233,88 @@ class Real:
         from lcapy import s
         e = sup.laplace().sympy
         v = S.cancel(e.subs(s.sympy, self.spoint))
+        # the noise part: total rms value (expressions with different noise identifiers add in quadrature)
+        noise = ''
+        if getattr(sup, 'has_noisy', False):
+            noise = '|n=' + str(S.simplify(sup.n.sympy)).replace(' ', '')
         if v.free_symbols:
-            return 'sym:' + S.srepr(S.factor(v))
+            return 'sym:' + S.srepr(S.factor(v)) + noise
         v = S.nsimplify(v) if v.is_Float else v
         if v.is_Rational:
-            return '%d/%d' % (v.p, v.q)
-        return 'val:' + str(v)
+            return '%d/%d' % (v.p, v.q) + noise
+        return 'val:' + str(v) + noise
+
+    def query_obj(self, c, q, arg):
+        """the result OBJECT of a value query (a Superposition)"""
+        return c.get_Vd(arg, '0') if q == 'get_Vd' else c.get_I(arg)
+
+    # read-only derivations of a kept expression: each makes a NEW object
+    DERIVATIONS = ['as_transfer', 'as_impedance', 'as_admittance', 'as_voltage', 'as_current', 'as_expr', 'simplify',
+                   'expand', 'canonical', 'partfrac', 'time', 'neg', 'double', 'transient_response']
+
+    def expr_snapshot(self, x, with_time=True):
+        """what a kept Laplace-domain expression says about itself"""
+        from lcapy import t
+        out = ['class=' + type(x).__name__,
+               'assumptions=' + ','.join('%s:%s' % (k, v) for k, v in sorted(dict(x.assumptions).items(), key=str)),
+               'is_causal=%s' % x.is_causal, 'is_dc=%s' % x.is_dc, 'is_ac=%s' % x.is_ac,
+               'expr=' + str(x.sympy)]
+        if with_time:
+            try:
+                out.append('time=' + str(x(t).sympy))
+            except Exception as e:      # noqa
+                out.append('time=error:' + type(e).__name__)
+        return [o.replace(' ', '') for o in out]
+
+    def result_purity(self, c, q, arg):
+        """keep the Laplace-domain view of a query result, derive new expressions from it, and report
+        (snapshot before, snapshot after, first derivation after which the kept object changed, snapshot of the same
+        query asked again afterwards)"""
+        import signal
+        from lcapy import s
+
+        def on_alarm(signum, frame):
+            raise Timeout()
+        oldh = signal.signal(signal.SIGALRM, on_alarm)
+        signal.setitimer(signal.ITIMER_REAL, SOLVE_TIMEOUT, 1.0)
+        try:
+            x = self.query_obj(c, q, arg)(s)
+            before = self.expr_snapshot(x)
+            culprit = None
+            quick = self.expr_snapshot(x, False)
+            for d in self.DERIVATIONS:
+                try:
+                    if d == 'neg':
+                        -x
+                    elif d == 'double':
+                        x + x
+                    else:
+                        getattr(x, d)()
+                except Timeout:
+                    raise
+                except Exception:       # noqa
+                    pass
+                if culprit is None:
+                    now = self.expr_snapshot(x, False)
+                    if now != quick:
+                        culprit = d
+            after = self.expr_snapshot(x)
+            again = self.expr_snapshot(self.query_obj(c, q, arg)(s))
+            return before, after, culprit, again
+        except Timeout:
+            return None
+        except Exception as e:          # noqa
+            return ['error:' + type(e).__name__], ['error:' + type(e).__name__], None, ['error:' + type(e).__name__]
+        finally:
+            signal.setitimer(signal.ITIMER_REAL, 0)
+            signal.signal(signal.SIGALRM, oldh)
+
+    def result_fresh(self, c, q, arg):
+        from lcapy import s
+        try:
+            return self.expr_snapshot(self.query_obj(c, q, arg)(s))
+        except Exception as e:          # noqa
+            return ['error:' + type(e).__name__]
 
     def query(self, c, q, arg=None):
         """canonical string answer; exceptions become error:<Type>; solves are cut after SOLVE_TIMEOUT seconds"""
@@ -237,7 +323,8 @@ class Real:
         def on_alarm(signum, frame):
             raise Timeout()
         oldh = signal.signal(signal.SIGALRM, on_alarm)
-        signal.setitimer(signal.ITIMER_REAL, SOLVE_TIMEOUT, 1.0)
+        # the topology queries are instantaneous when they terminate (`ladder` does not on some rings)
+        signal.setitimer(signal.ITIMER_REAL, GRAPH_TIMEOUT if q in GRAPH_TIMED else SOLVE_TIMEOUT, 1.0)
         try:
             return self.query1(c, q, arg)
         finally:
@@ -253,6 +340,13 @@ class Real:
                 return self.canon(sorted(str(l) for l in c.cg.loops()))
             if q == 'unconnected_nodes':
                 return self.canon(sorted(c.unconnected_nodes()))
+            if q == 'describe':
+                import io
+                import contextlib
+                buf = io.StringIO()
+                with contextlib.redirect_stdout(buf):
+                    c.describe()
+                return buf.getvalue().strip().replace('\n', '|').replace(' ', '_')
             if q == 'equipotential_nodes':
                 return self.canon(sorted('%s:%s' % (k, '+'.join(sorted(v))) for k, v in c.equipotential_nodes.items()))
             if q in ('in_series', 'in_parallel'):
@@ -308,6 +402,8 @@ class Real:
             return c.remove_dangling(passes=1)
         if kind == 'subs':
             return c.subs({'Rx': 3})
+        if kind == 'renumber':
+            return c.renumber()
         raise ValueError(kind)
 
     def memo_bits(self, c, memo_names):
@@ -378,6 +474,7 @@ class History:
         self.struct_flagged = {}  # instance -> taint under which a structural difference was already reported
         self.impure_flagged = set()
         self.fresh_cache = {}         # observations of fresh rebuilds, by netlist text (a fresh rebuild is deterministic)
+        self.last_value = {}          # instance -> (netlist text, query, arg, result object) of its last value query
         self.setting_touched = None   # a process-wide setting was toggled (and toggled back) earlier in this history
         from lcapy import state as _st
         self.state = _st
@@ -459,6 +556,10 @@ class History:
                 self.finish_query(p)
             elif p['what'] == 'battery':
                 self.finish_battery(p)
+            elif p['what'] == 'combo':
+                self.finish_combo(p)
+            elif p['what'] == 'result':
+                self.finish_result(p)
             else:
                 self.finish_derive(p)
         self.ops = ops_all
@@ -481,6 +582,10 @@ class History:
     def finish_query(self, p):
         i, q, arg, got, trace_rec = p['i'], p['q'], p['arg'], p['hist'], p['trace']
         ck = ('query', p['text'], p['kind'], q, str(arg))
+        if got == 'error:Timeout':
+            # per-case time limits only count
+            self.chk.count('degenerate', 'solver-timeout')
+            return
         if ck not in self.fresh_cache:
             self.fresh_cache[ck] = self.R.query(self.R.fresh(p['text'], p['kind']), q, arg)
         want = self.fresh_cache[ck]
@@ -541,7 +646,12 @@ class History:
         self.chk.count('battery', 'compared')
         if len(fresh) == len(p['hist']) and any(a.endswith('=timeout') or b.endswith('=timeout') for a, b in zip(p['hist'], fresh)):
             # a per-item time limit only counts, never alarms
-            self.chk.count('degenerate', 'battery-item-timeout')
+            for a, b in zip(p['hist'], fresh):
+                if a.endswith('#1=timeout') or b.endswith('#1=timeout'):
+                    self.chk.count('degenerate', 'battery-item-timeout:' + a.split('(')[0].split('#')[0])
+                    hs = self.chk.coverage.setdefault('nonterminating_queries_seen', [])
+                    if len(hs) < 3:
+                        hs.append({'item': a.split('#')[0], 'netlist': p['text']})
             keep = [k for k, (a, b) in enumerate(zip(p['hist'], fresh)) if not (a.endswith('=timeout') or b.endswith('=timeout'))]
             p = dict(p, hist=[p['hist'][k] for k in keep])
             fresh = [fresh[k] for k in keep]
@@ -662,7 +772,20 @@ class History:
         self.chk.count('op', 'remove' if known else 'remove-unknown')
         self.after_mutation(i, flag, 'remove' if flag == 'ok' else ('failed-remove' if known else 'remove-unknown'))
 
+    def check_context(self, i, cause):
+        """every public operation leaves the process in the context it found (state.py switch_context/restore_context)"""
+        st = self.state
+        if st.context is not self.base_context or st.previous_context:
+            key = {'kind': 'context-leak', 'after': cause}
+            if ('ctx', cause) not in self.impure_flagged:
+                self.impure_flagged.add(('ctx', cause))
+                self.counterexample(key, 'the operation left the symbol context switched',
+                                    {'instance': i, 'context_stack_depth': len(st.previous_context)})
+            while st.previous_context:
+                st.restore_context()
+
     def after_mutation(self, i, flag, cause):
+        self.check_context(i, cause)
         if self.modelled[i]:
             m = self.model_trace_last()
             self.chk.coverage['correspondence']['compared'] += 1
@@ -689,13 +812,76 @@ class History:
         # QUERY PURITY: the fixed battery on the same instance, compared (deferred) with the battery on a fresh rebuild
         self.pending.append({'what': 'battery', 'k': len(self.ops), 'i': i, 'cause': q, 'arg': arg, 'taint': self.taint[i],
                              'text': self.R.text(c), 'kind': c.kind, 'hist': self.R.battery(c)})
+        if q in SOLVE_QUERIES and not got.startswith('error:'):
+            self.value_query_extras(i, q, arg)
         self.record_snaps()
+        self.check_context(i, 'query')
         self.chk.count('op', 'query')
         # a query must not change the circuit (queries on circuits without ground may add a wire: skipped by the generator)
         for j in range(len(self.insts)):
             self.check_structural(j, 'query')
         self.chk.case((self.label, len(self.ops)), True)
         return got
+
+    def value_query_extras(self, i, q, arg):
+        """two more oracles on the result OBJECT of a value query:
+        (1) answers obtained at different times from one instance combine as if they had been asked together (noise
+            identifiers, shared symbols): the sum of this result and the previous one is compared with the sum of the same
+            two queries on a fresh rebuild;
+        (2) deriving new expressions from a kept result (as_transfer, as_impedance, simplify, ...) does not change the kept
+            object, nor what the same query returns afterwards"""
+        c = self.insts[i]
+        text = self.R.text(c)
+        try:
+            obj = self.R.query_obj(c, q, arg)
+        except Exception:       # noqa
+            return
+        prev = self.last_value.get(i)
+        if prev is not None and prev[0] == text and prev[1] == q and (prev[2] != arg):
+            try:
+                combo = self.R.value_at(prev[3] + obj)
+            except Exception as e:      # noqa
+                combo = 'error:' + type(e).__name__
+            self.chk.count('combined-answers', 'noisy' if '|n=' in combo else 'plain')
+            self.pending.append({'what': 'combo', 'k': len(self.ops), 'i': i, 'q': q, 'args': [prev[2], arg], 'taint': self.taint[i],
+                                 'text': text, 'kind': c.kind, 'hist': combo})
+        self.last_value[i] = (text, q, arg, obj)
+        rp = self.R.result_purity(c, q, arg)
+        if rp is None:
+            self.chk.count('degenerate', 'solver-timeout')
+            return
+        before, after, culprit, again = rp
+        self.chk.count('result-purity', 'checked')
+        if not self.spec_same(before, after):
+            differs = [a.split('=')[0] for a, b in zip(before, after) if a != b]
+            self.counterexample({'kind': 'result-mutated', 'by': culprit or '?', 'after': self.taint[i]},
+                                'deriving a new expression (%s) from a kept query result changed the kept object (%s)' % (culprit, ','.join(differs)),
+                                {'instance': i, 'query': q, 'arg': arg, 'before': before, 'after_derivations': after, 'netlist': text})
+        self.pending.append({'what': 'result', 'k': len(self.ops), 'i': i, 'q': q, 'arg': arg, 'taint': self.taint[i],
+                             'text': text, 'kind': c.kind, 'hist': again, 'kept': after})
+
+    def finish_combo(self, p):
+        f = self.R.fresh(p['text'], p['kind'])
+        try:
+            want = self.R.value_at(self.R.query_obj(f, p['q'], p['args'][0]) + self.R.query_obj(f, p['q'], p['args'][1]))
+        except Exception as e:      # noqa
+            want = 'error:' + type(e).__name__
+        if not self.spec_same([p['q'], p['hist']], [p['q'], want]):
+            self.counterexample({'kind': 'combined-answers-differ', 'query': p['q'], 'after': p['taint']},
+                                'two answers obtained at different times from one circuit do not combine like the same two answers of a freshly built circuit',
+                                {'instance': p['i'], 'query': p['q'], 'args': p['args'], 'lcapy_sum': p['hist'], 'fresh_sum': want,
+                                 'netlist': p['text']})
+
+    def finish_result(self, p):
+        f = self.R.fresh(p['text'], p['kind'])
+        want = self.R.result_fresh(f, p['q'], p['arg'])
+        for label, got in (('the same query asked again after the derivations', p['hist']), ('the kept result object', p['kept'])):
+            if not self.spec_same(got, want):
+                differs = [a.split('=')[0] for a, b in zip(got, want) if a != b]
+                self.counterexample({'kind': 'result-differs', 'what': differs[0] if differs else '?', 'after': p['taint']},
+                                    '%s differs from the result of a freshly built circuit (%s)' % (label, ','.join(differs)),
+                                    {'instance': p['i'], 'query': p['q'], 'arg': p['arg'], 'lcapy': got, 'fresh': want, 'netlist': p['text']})
+                break
 
     def do_setting(self, name, i, q, arg=None):
         """toggle a process-wide setting, ask a query under it (its answer legitimately depends on the setting and is not
@@ -727,9 +913,22 @@ class History:
         except Exception as e:      # noqa
             d, err = None, 'error:' + type(e).__name__
         self.chk.count('op', 'derive-' + kind)
+        self.check_context(i, 'derive-' + kind)
         a = [kind, err or self.R.text(d).replace('\n', '\\n').replace(' ', '_')]
         self.pending.append({'what': 'derive', 'k': len(self.ops) + 1, 'i': i, 'kind': kind, 'ckind': c.kind, 'taint': self.taint[i],
                              'text': before, 'hist': a})
+        if d is not None and kind in EXPLICIT_DEFAULT:
+            # omitting an optional argument = passing its documented default explicitly (a mutable default argument is one
+            # object for the whole process and remembers the circuits of earlier calls)
+            try:
+                e = self.R.text(EXPLICIT_DEFAULT[kind](c)).replace('\n', '\\n').replace(' ', '_')
+            except Exception as ex:     # noqa
+                e = 'error:' + type(ex).__name__
+            self.chk.count('explicit-default', kind)
+            if not self.spec_same(a, [kind, e]):
+                self.counterexample({'kind': 'default-argument-state', 'op': kind, 'after': self.taint[i]},
+                                    '%s() differs from the same call with the documented default passed explicitly' % kind,
+                                    {'instance': i, 'lcapy': a, 'explicit': [kind, e], 'netlist': before})
         if self.R.text(c) != before:
             self.counterexample({'kind': 'source-changed', 'op': kind, 'after': self.taint[i]},
                                 '%s() changed the original circuit' % kind, {'instance': i, 'before': before, 'now': self.R.text(c)})
@@ -813,7 +1012,7 @@ def rand_bad_lines(rng, h, i):
     elif r < 0.5:
         bad = '%s %s %s %s' % (fresh_name(h, i, 'E'), a, b, c3)
     elif r < 0.75:
-        bad = '%s %s %s %d' % (rng.choice(['Isc', 'Voc', 'Vdict', 'Idict', 'Vname', 'Iname']), a, b, rng.randint(1, 5))
+        bad = '%s %s %s %d' % (rng.choice(['Isc', 'Voc', 'Vname', 'Iname']), a, b, rng.randint(1, 5))
     else:
         bad = '%s %s %s {%d%s}' % (nm, a, b, rng.randint(1, 5), rng.choice('+*('))
     if rng.random() < 0.35:
@@ -834,10 +1033,10 @@ def rand_line(rng, name, symbolic=False):
             return '%s %s %s %d %d' % (name, a, b, rng.randint(1, 5), rng.randint(1, 3))
         return '%s %s %s %d' % (name, a, b, rng.randint(1, 5))
     if k == 'V':
-        form = rng.choice(['dc %d', 'step %d', '%d', 'ac %d'])
+        form = rng.choice(['dc %d', 'step %d', '%d', 'ac %d', 'noise %d'])
         return '%s %s %s %s' % (name, a, b, form % rng.randint(1, 9))
     if k == 'I':
-        form = rng.choice(['dc %d', 'step %d', '%d'])
+        form = rng.choice(['dc %d', 'step %d', '%d', 'noise %d'])
         return '%s %s %s %s' % (name, a, b, form % rng.randint(1, 9))
     return '%s %s %s' % (name, a, b)       # W, O
 
@@ -855,6 +1054,8 @@ BASES = [
     ['V1 1 0 5', 'R1 1 2 1', 'F1 3 0 V1 2', 'R2 3 0 4', 'R3 2 0 2'],
     ['V1 1 0 ac 3', 'R1 1 2 1', 'TF1 3 0 2 0 2', 'R2 3 0 8'],
     ['V1 1 0 3', 'R1 1 2 2', 'E1 3 0 opamp 2 4', 'R2 4 0 1', 'R3 3 4 5'],
+    ['V1 1 0 noise 3', 'R1 1 2 1', 'R2 2 0 2'],
+    ['V1 1 0 noise 3', 'V2 3 1 dc 2', 'R1 3 2 1', 'R2 2 0 2', 'I1 2 0 noise 1'],
 ]
 
 
@@ -942,8 +1143,8 @@ def gen_history(chk, h, rng, nops, heavy, deadline=None):
                 else:
                     h.do_query(i, 'get_I', rng.choice(names))
         elif r < 0.94:
-            kind = rng.choice(['copy', 'copy', 'kill', 'select', 'simplify', 'simplify', 'remove_dangling', 'remove_dangling']
-                              + (['subs'] if i == 1 else []))
+            kind = rng.choice(['copy', 'copy', 'kill', 'select', 'simplify', 'simplify', 'remove_dangling', 'remove_dangling',
+                               'renumber', 'renumber'] + (['subs'] if i == 1 else []))
             j = h.do_derive(i, kind)
             if j is not None and len(active) < 4 and rng.random() < 0.6:
                 active.append(j)
@@ -1233,13 +1434,62 @@ HASH_HISTORIES = [
     [['V1 1 0 5', 'R1 1 2 1', 'R2 2 3 2', 'C1 3 4 1', 'C2 4 0 2'], 'simplify'],
     [['I1 1 0 2', 'R1 1 0 3', 'R2 1 0 6', 'C1 1 0 1', 'C2 1 0 2', 'L1 1 0 1', 'L2 1 0 3'], 'simplify'],
     [['V1 1 0 5', 'R1 1 2 1', 'R2 2 3 2', 'L1 3 4 1', 'L2 4 5 2', 'C1 5 6 1', 'C2 6 0 1'], 'simplify'],
+    [['V1 1 0 5', 'R1 1 2 1', 'R2 2 3 2', 'R3 3 4 3', 'R4 4 5 4', 'R5 5 0 5'], 'in_series:R1'],
+    [['V1 1 0 5', 'C1 1 0 1', 'C2 1 0 2', 'C3 1 0 3', 'C4 1 0 4', 'R1 1 0 5'], 'in_parallel:C1'],
+    [['V1 1 0 5', 'R1 1 2 1', 'R2 2 3 2', 'R3 3 0 3', 'C1 3 0 1', 'C2 3 0 2'], 'series-parallel-all'],
 ]
+
+
+# parameterless public transformations of a netlist, applied to circuit A alone or to an unrelated circuit B first: the
+# result for A must be the same (hidden per-process state: mutable default arguments, class-level caches, counters)
+PROC_A = ['V1 in 0 step 5', 'R1 in mid 2', 'C1 mid out 1', 'R2 out 0 3', 'L1 out x 1', 'R3 x 0 1']
+PROC_B = ['V1 out 0 step 2', 'R1 out x 1', 'R2 x in 4', 'C1 in 0 2', 'R3 y 0 1', 'R4 y in 2']
+PROC_METHODS = ['renumber', 'copy', 'kill', 'simplify', 'remove_dangling', 'expand', 's_model', 'pre_initial_model', 'ss_model',
+                'noise_model', 'laplace', 'dc', 'ac', 'transient', 'time', 'kill_zero', 'noisy', 'remove_disconnected',
+                'convert_IVP', 'netlist', 'describe_nodes', 'node_list', 'branch_list', 'equipotential_nodes', 'unconnected_nodes',
+                'augment_node_map', 'state_space_A', 'transfer_in_out', 'Vout']
+
+
+def proc_call(R, c, m):
+    try:
+        if m == 'describe_nodes':
+            r = sorted(c.nodes.keys())
+        elif m == 'state_space_A':
+            r = c.state_space().A.sympy
+        elif m == 'transfer_in_out':
+            r = c.transfer('in', '0', 'out', '0').sympy
+        elif m == 'Vout':
+            r = R.value_at(c.get_Vd('out', '0'))
+        else:
+            r = getattr(c, m)
+            r = r() if callable(r) else r
+        if hasattr(r, 'netlist') and callable(r.netlist):
+            r = r.netlist()
+        if isinstance(r, dict):
+            r = sorted((str(k), str(v)) for k, v in r.items())
+        return re.sub(r'_?nodeanon\d+|anon\d+', 'anon', str(r))
+    except Exception as e:      # noqa
+        return 'error:' + type(e).__name__
 
 
 def hash_worker():
     """child process: run the fixed histories, print JSON (one result string per history)"""
     R = Real()
     out = []
+    # (1) the per-method results for circuit A, alone or each time after the same call on the unrelated circuit B
+    mode = os.environ.get('C16_WORKER_MODE', 'alone')
+    proc = []
+    for m in PROC_METHODS:
+        if mode == 'after-other':
+            b = R.lcapy.Circuit()
+            for l in PROC_B:
+                b.add(l)
+            proc_call(R, b, m)
+        a = R.lcapy.Circuit()
+        for l in PROC_A:
+            a.add(l)
+        proc.append(proc_call(R, a, m))
+    print('PROCRESULT ' + json.dumps(proc))
     for lines, what in HASH_HISTORIES:
         c = R.lcapy.Circuit()
         for l in lines:
@@ -1251,6 +1501,13 @@ def hash_worker():
                 r = R.text(c.remove_dangling())
             elif what == 'V2':
                 r = R.value_at(c.get_Vd('2', '0'))
+            elif what.startswith('in_series:'):
+                r = str(c.in_series(what.split(':')[1]))
+            elif what.startswith('in_parallel:'):
+                r = str(c.in_parallel(what.split(':')[1]))
+            elif what == 'series-parallel-all':
+                # lists of SETS: compared as sets
+                r = str([sorted(g) for g in c.in_series()]) + '|' + str([sorted(g) for g in c.in_parallel()])
             else:
                 _ = c.capacitors
                 c.add('C9 2 0 1')
@@ -1264,21 +1521,48 @@ def hash_worker():
 def hash_seed_runs(chk, drv, seeds):
     env = dict(os.environ)
     procs = []
-    for sd in seeds:
+    for sd in list(seeds) + ['other']:
         e = dict(env)
-        e['PYTHONHASHSEED'] = str(sd)
+        e['PYTHONHASHSEED'] = str(seeds[0] if sd == 'other' else sd)
+        e['C16_WORKER_MODE'] = 'after-other' if sd == 'other' else 'alone'
         e['PYTHONWARNINGS'] = 'ignore'
         if common.REPO != '/repo':
             e['PYTHONPATH'] = common.REPO + os.pathsep + e.get('PYTHONPATH', '')
         procs.append((sd, subprocess.Popen([sys.executable, os.path.abspath(__file__), '--hashworker'], env=e,
                                            stdout=subprocess.PIPE, stderr=subprocess.DEVNULL, universal_newlines=True)))
     results = {}
+    procres = {}
     for sd, p in procs:
-        out, _ = p.communicate(timeout=600)
+        out, _ = p.communicate(timeout=900)
         line = [l for l in out.split('\n') if l.startswith('HASHRESULT ')]
-        if not line:
+        pline = [l for l in out.split('\n') if l.startswith('PROCRESULT ')]
+        if not line or not pline:
             raise common.Infra('hash-seed worker %s produced no result' % sd)
         results[sd] = json.loads(line[0][len('HASHRESULT '):])
+        procres[sd] = json.loads(pline[0][len('PROCRESULT '):])
+    found_proc = []
+    for k, m in enumerate(PROC_METHODS):
+        chk.case(('process-history', m), True)
+        alone = [m, procres[seeds[0]][k].replace('\n', '\\n').replace(' ', '_')]
+        other = [m, procres['other'][k].replace('\n', '\\n').replace(' ', '_')]
+        chk.count('process-history', 'same' if alone == other else 'differs')
+        if drv.ask1('c16.same %s == %s' % (' '.join(alone), ' '.join(other))) != 'true':
+            key = {'kind': 'process-history', 'op': m}
+            found_proc.append(key)
+            chk.count('counterexample', json.dumps(key, sort_keys=True))
+            chk.counterexample(key, {'input': {'netlist': PROC_A, 'other_netlist': PROC_B, 'op': m, 'python_hash_seed': seeds[0]},
+                                     'lcapy': {'alone_in_a_fresh_process': procres[seeds[0]][k], 'after_the_same_call_on_another_circuit': procres['other'][k]},
+                                     'spec': 'the result for a circuit does not depend on what other circuits the process has handled'},
+                               '%s of a circuit depends on an earlier %s of an unrelated circuit in the same process' % (m, m))
+        for sd in seeds[1:]:
+            if procres[sd][k] != procres[seeds[0]][k]:
+                key = {'kind': 'hash-seed', 'op': m, 'differs': 'content'}
+                found_proc.append(key)
+                chk.count('counterexample', json.dumps(key, sort_keys=True))
+                chk.counterexample(key, {'input': {'netlist': PROC_A, 'op': m}, 'python_hash_seed': [seeds[0], sd],
+                                         'lcapy': {str(seeds[0]): procres[seeds[0]][k], str(sd): procres[sd][k]},
+                                         'spec': 'the result must not depend on PYTHONHASHSEED'}, '%s depends on PYTHONHASHSEED' % m)
+                break
     ref_seed = seeds[0]
     found = []
     for k, (lines, what) in enumerate(HASH_HISTORIES):
@@ -1296,7 +1580,9 @@ def hash_seed_runs(chk, drv, seeds):
         if bad is not None:
             # same lines in a different order (element order only) or really different netlists?
             same_lines = sorted(vals[ref_seed].split('\n')) == sorted(vals[bad].split('\n'))
-            key = {'kind': 'hash-seed', 'op': what, 'differs': 'line-order' if same_lines else 'content'}
+            if what.split(':')[0] in ('in_series', 'in_parallel'):
+                same_lines = sorted(re.findall(r'\w+', vals[ref_seed])) == sorted(re.findall(r'\w+', vals[bad]))
+            key = {'kind': 'hash-seed', 'op': what.split(':')[0], 'differs': 'line-order' if same_lines else 'content'}
             found.append(key)
             chk.count('counterexample', json.dumps(key, sort_keys=True))
             chk.counterexample(key,
@@ -1304,7 +1590,7 @@ def hash_seed_runs(chk, drv, seeds):
                                 'lcapy': {str(ref_seed): vals[ref_seed], str(bad): vals[bad]},
                                 'spec': 'the result must not depend on PYTHONHASHSEED'},
                                '%s depends on PYTHONHASHSEED' % what)
-    return found
+    return found + found_proc
 
 
 # --------------------------------------------------------------------------- corpus: the Lean witnesses on the real code
@@ -1325,6 +1611,13 @@ def corpus_histories():
                                    ('query', 0, 'ladder', ('1', '4')), ('query', 0, 'in_series', None), ('query', 0, 'in_parallel', 'C1'),
                                    ('query', 0, 'across_nodes', ('2', '0')), ('query', 0, 'unreachable_nodes', '0'),
                                    ('query', 0, 'is_connected'), ('query', 0, 'loops'), ('query', 0, 'ladder', ('1', '4'))]),
+        # two answers of one circuit with another circuit built in between; derivations from a kept result
+        ('builtin:noise-correlation', [('new', ['V1 1 0 noise 3', 'R1 1 2 1', 'R2 2 0 2']), ('query', 0, 'get_Vd', '1'),
+                                       ('new', ['V1 1 0 5', 'R1 1 0 2']), ('query', 0, 'get_Vd', '2'), ('query', 1, 'get_Vd', '1'),
+                                       ('query', 0, 'get_I', 'R1'), ('derive', 0, 'copy'), ('query', 0, 'get_I', 'R2')]),
+        ('builtin:kept-results', [('new', ['V1 1 0 dc 10', 'R1 1 2 2', 'R2 2 0 3']), ('query', 0, 'get_Vd', '2'),
+                                  ('query', 0, 'get_I', 'R1'), ('new', ['V1 1 0 ac 10', 'R1 1 2 2', 'C1 2 0 3']),
+                                  ('query', 1, 'get_Vd', '2'), ('query', 0, 'get_Vd', '1')]),
         # the exception branch of add
         ('builtin:failing-adds', [('new', ['V1 1 0 5', 'R1 1 2 1', 'R2 2 0 2']), ('query', 0, 'node_list'),
                                   ('add', 0, 'R5 2'), ('add', 0, 'X1 1 2'), ('remove', 0, 'R99'), ('query', 0, 'node_list'),
@@ -1335,6 +1628,11 @@ def corpus_histories():
 
 def run_script(h, script):
     for st in script:
+        # an instance the script refers to may be missing (the derivation that should have made it raised)
+        idx = st[2] if st[0] == 'setting' else (st[1] if st[0] != 'new' else None)
+        if idx is not None and not (isinstance(idx, int) and 0 <= idx < len(h.insts)):
+            h.chk.count('degenerate', 'script-op-on-missing-instance')
+            continue
         if st[0] == 'new':
             h.do_new(st[1])
         elif st[0] == 'add':
@@ -1428,11 +1726,17 @@ def run(chk, replay=None):
     rng = chk.rng
     memo_names = [m for m in info['memoised']]
     chk.coverage['rule'] = ('a case = one operation of a history (random histories over two base Circuit instances plus derived '
-                            'instances; ops: add, override, remove, failing remove, 16 cheap memo queries, node voltages/currents '
-                            'at a rational Laplace point, copy/kill/select/simplify/remove_dangling/subs, unrelated transforms), '
-                            'after which every instance is compared with Circuit(str(cct)); plus transform-cache cases and '
-                            'PYTHONHASHSEED reruns; non-trivial = every counted case (each follows at least one mutation); '
-                            'distinct by (history, position)')
+                            'instances; ops: add of two-terminal AND multi-terminal components (E, G, opamp form, F/H with their '
+                            'controlling source, TF, TP, GY, K), override, remove, failing remove, failing add (unknown type, missing '
+                            'node, too many fields, reserved name, unparsable value; single line and inside a multi-line string), '
+                            'cheap memo queries, graph-based queries (in_series, in_parallel, across_nodes, unreachable_nodes, ladder, '
+                            'loops, is_connected), node voltages/currents at a rational Laplace point, copy/kill/select/simplify/'
+                            'remove_dangling/subs, toggling a process-wide setting and back, unrelated transforms); every query op is '
+                            'asked twice in a row and followed by a fixed battery of node-level and graph-level observations on the same '
+                            'instance (graph items twice); after every op every instance, and after every query the battery, is compared '
+                            'with Circuit(str(cct)); plus symbol-registry / context interleavings of two circuits and free expressions '
+                            'with clashing names, transform-cache cases and PYTHONHASHSEED reruns; non-trivial = every counted case '
+                            '(each follows at least one mutation); distinct by (history, position)')
     all_found = []
     all_disagree = []
 
@@ -1490,7 +1794,7 @@ def run(chk, replay=None):
 
     # ---- 4. random histories
     nhist = 50 if quick else 220
-    budget = 85 if quick else 540          # seconds for the random histories, counted from the end of the Lean build
+    budget = 70 if quick else 540          # seconds for the random histories, counted from the end of the Lean build
     for k in range(nhist):
         if time.time() - t_built > budget:
             chk.coverage['histories_cut_by_time_budget'] = nhist - k
@@ -1527,7 +1831,7 @@ def run(chk, replay=None):
         [('use', 'a', 'real'), ('add', 1, ['a', 'b'], True), ('add', 2, ['a'], False), ('use', 'b', 'complex'), ('use', 'a', 'positive')],
         [('add', 1, ['a'], True), ('declare', 'a', 'complex'), ('add', 2, ['a', 'b'], True), ('use', 'a', 'real'), ('use', 'b', 'real')],
     ]
-    nsym = 40 if quick else 250
+    nsym = 30 if quick else 250
     for k in range(nsym + len(fixed)):
         for kind, item in symreg_case(chk, R, drv, rng, k, ops=(fixed[k] if k < len(fixed) else None)):
             if kind == 'ce':
@@ -1564,7 +1868,10 @@ def run(chk, replay=None):
                 'failed_op_atomic_current': lambda k: k.get('after') == 'failed-add',
                 'delete_cleans_kinds': lambda k: k.get('kind') == 'symbol-registry' and k.get('after') == 'symbol-delete',
                 'delete_resets_history_current': lambda k: k.get('kind') == 'symbol-registry' and k.get('after') == 'symbol-delete',
-                'contexts_share_symbols': lambda k: k.get('kind') == 'symbol-registry'}
+                'contexts_share_symbols': lambda k: k.get('kind') == 'symbol-registry',
+                'netlist_layer_reads_no_state_setting': lambda k: k.get('kind') == 'setting-trace',
+                'no_mutable_default_arguments': lambda k: k.get('kind') in ('default-argument-state', 'process-history', 'derive-differs'),
+                'arguments_not_mutated_through_alias': lambda k: k.get('kind') in ('result-mutated', 'result-differs')}
     unmatched = [k for k in all_found if common.match_finding(chk.findings, k) is None]
     for b in allb:
         thm = b.split(':')[-1]
